@@ -57,24 +57,22 @@ theorem resume_point (as : List Act) : resumeOK (run init as).outs = true :=
 example : resumeOK [.reqWatch 7, .bookmark 7, .event .modified 1 5, .reqWatch 3, .listed 3, .reqList] = true := by decide
 example : resumeOK [.reqWatch 5, .bookmark 7, .event .modified 1 5, .reqWatch 3, .listed 3, .reqList] = false := by decide
 
-/-- **Too old (410) → re-list — in-stream form.** An ERROR 410 line, whether it comes in the middle of
-    a stream or as the answer to a too-old `since` (server in in-stream mode), ends the stream without
-    an exception; after the backoff the client lists afresh (unless paused: then it waits, and lists on
-    un-pause — `fresh_list_on_resume`).
-
-    Full statement wanted by the property: the same for BOTH ways a server reports "too old", i.e.
-    without `w.http410 = false` in (2). That is false of the code: `relist_on_410_http_witness`. -/
-theorem relist_on_410_partial (w : World) :
+/-- **Too old (410) → re-list — both forms.** An ERROR 410 line in the middle of a stream, and the
+    answer to a too-old `since` — whether the server sends it as an in-stream ERROR event or as HTTP 410
+    on the watch request itself (`w.http410` is not constrained) — end the stream without an exception;
+    after the backoff the client lists afresh (unless paused: then it waits, and lists on un-pause —
+    `fresh_list_on_resume`). The listing then covers everything: `relist_covers_everything`. -/
+theorem relist_on_410 (w : World) :
     (w.phase = .streaming →
         (step w .err410).phase = .backoff ∧ (step w .err410).outs = w.outs) ∧
-    (w.phase = .connecting → w.since < w.horizon → w.http410 = false →
+    (w.phase = .connecting → w.since < w.horizon →
         (step w .respond).phase = .backoff ∧ (step w .respond).outs = w.outs) ∧
     (w.phase = .backoff → w.paused = false →
         (step w .wake).phase = .listing ∧ (step w .wake).outs = .reqList :: w.outs) := by
   refine ⟨?_, ?_, ?_⟩
   · intro h; simp [step, h, toBackoff]
-  · intro h hs hh
-    by_cases hp : w.pauseSeen = true <;> simp [step, h, hs, hh, hp, toBackoff]
+  · intro h hs
+    by_cases hp : w.pauseSeen = true <;> by_cases hh : w.http410 = true <;> simp [step, h, hs, hh, hp, toBackoff]
   · intro h hp; simp [step, h, hp, startListing, emit]
 
 /-- A listing covers everything the server holds at that moment: after it nothing is missing. -/
@@ -92,36 +90,21 @@ theorem relist_covers_everything (as : List Act) :
   rw [hl]
   exact (inv_run inv_init as).bound e he
 
-/-- **Too old (410) → re-list — HTTP form: false of the code.** The API server may answer the watch
-    request itself with HTTP 410. `continuous_watch` only knows the in-stream ERROR: the `APIClientError`
-    leaves `infinite_watch`. Witness: list, watch, a change the stream has not delivered yet, EOF,
-    compaction, HTTP 410 — the client is `failed`, the change is not covered, and whatever happens
-    afterwards nothing more is ever observed: that change (and every later one) never reaches processing. -/
-theorem relist_on_410_http_witness :
-    ∃ (as : List Act) (e : Entry),
-      let w := run init as
-      w.phase = .failed ∧ e ∈ w.log ∧ ¬ Covered w e ∧
-      (∀ bs, (run w bs).outs = w.outs) := by
-  refine ⟨[.wake, .respond, .respond, .setHttp410 true, .change 1 .added true, .drop .eof, .compact 1, .respond],
-    ⟨1, 1, .added⟩, by decide, by decide, ?_, ?_⟩
-  · intro h
-    rcases h with h | h
-    · exact absurd h (by decide)
-    · exact absurd h (by decide)
-  · intro bs
-    have hf : ∀ (w : World), w.phase = .failed → ∀ bs, (run w bs).outs = w.outs := by
-      intro w hw bs
-      induction bs generalizing w with
-      | nil => rfl
-      | cons b bs ih =>
-          have h1 : (step w b).phase = .failed ∧ (step w b).outs = w.outs := by
-            cases b <;> simp only [step, hw] <;> (try split) <;> simp_all
-          show (run (step w b) bs).outs = w.outs
-          rw [ih _ h1.1, h1.2]
-    exact hf _ (by decide) bs
+/-- **HTTP 410 never kills the stream.** No request answer `respond` (this is the act that carries the
+    HTTP 410) ever makes the client fail: the only exits to `failed` are an unknown ERROR event, a
+    non-JSON line, and a fatal (non-410, non-429) API error. -/
+theorem respond_never_fails (w : World) (h : w.phase ≠ .failed) : (step w .respond).phase ≠ .failed := by
+  cases hph : w.phase <;> simp [step, hph, rewatch, toBackoff, emit] <;> (repeat' split) <;> simp_all
 
-/-- The same script against a server in in-stream mode re-lists and the change is covered:
-    the witness is about the HTTP form only. -/
+/-- The former witness of the HTTP-form defect (kopf before e006454), now a regression example: list,
+    watch, an undelivered change, EOF, compaction, HTTP 410 on the re-watch — the client backs off,
+    re-lists, and the change reaches the consumer through the listing; the same holds in in-stream mode. -/
+example :
+    let w := run init [.wake, .respond, .respond, .setHttp410 true, .change 1 .added true, .drop .eof, .compact 1,
+                       .respond, .wake, .respond]
+    w.phase = .connecting ∧ w.outs.head? = some (.reqWatch 1) ∧ Out.item 1 1 ∈ w.outs ∧
+      ∀ e ∈ w.log, e.rv ≤ w.listRv := by decide
+
 example :
     let w := run init [.wake, .respond, .respond, .change 1 .added true, .drop .eof, .compact 1, .respond,
                        .wake, .respond]
